@@ -515,8 +515,8 @@ Proof.
 Qed.
 
 (* OSC 4: the palette index is the decoded second field *)
-Theorem dec_osc_palette_spec data idx r :
-  dec_osc data = Ok r -> (r = RSome (PColor 2 idx) \/ r = RExt (PColor 2 idx)) ->
+Theorem dec_osc_palette_spec data idx c r :
+  dec_osc data = Ok r -> (r = RSome (PColor 2 idx c) \/ r = RExt (PColor 2 idx c)) ->
   exists body a0 a1 rest, split_on 59 body = a0 :: a1 :: rest /\ number_decode a0 = Some 4 /\ number_decode a1 = Some idx.
 Proof.
   unfold dec_osc. destruct (index data (length data - 1)) as [last| | |]; cbn [bind]; try discriminate.
@@ -524,15 +524,14 @@ Proof.
   destruct (split_on 59 body) as [|a0 args] eqn:Es; [intros H [E|E]; subst; discriminate|].
   destruct (number_decode a0) as [id|] eqn:E0; [|intros H [E|E]; subst; discriminate].
   destruct (N.eqb_spec id 10).
-  { destruct args as [|t ?]; [|destruct (utf8_valid t)]; intros H [E|E]; subst; inversion H. }
+  { intros H [E|E]; subst r; split_matches H; inversion H. }
   destruct (N.eqb_spec id 11).
-  { destruct args as [|t ?]; [|destruct (utf8_valid t)]; intros H [E|E]; subst; inversion H. }
+  { intros H [E|E]; subst r; split_matches H; inversion H. }
   destruct (N.eqb_spec id 4); [|intros H [E|E]; subst; discriminate].
   destruct args as [|a1 rest]; [intros H [E|E]; subst; discriminate|].
   destruct (number_decode a1) as [i|] eqn:E1; [|intros H [E|E]; subst; discriminate].
-  destruct rest as [|t more]; [intros H [E|E]; subst; discriminate|].
-  destruct (utf8_valid t); intros H [E|E]; subst; inversion H; subst.
-  exists body, a0, a1, (t :: more). repeat split; assumption.
+  intros H HE. exists body, a0, a1, rest. subst id. split; [exact Es|]. split; [exact E0|].
+  destruct HE as [E|E]; subst r; split_matches H; inversion H; subst; exact E1.
 Qed.
 
 (* kitty keyboard key: the key comes from the first number of the first field (1 when there is none),
